@@ -218,6 +218,13 @@ theorem sound_aux (ρ : Env) : (e : Expr) → EnvOk ρ e →
       simp only [abs] at h1; simp only [eval] at h2
       exact ih.1 _ _ h1 h2
     · intro v _ x hx; simp [cv] at hx
+  | .present a c, henv => by
+    have ih := sound_aux ρ c henv
+    refine ⟨?_, ?_⟩
+    · intro ty v h1 h2
+      simp only [abs] at h1; simp only [eval] at h2
+      exact ih.1 _ _ h1 h2
+    · intro v _ x hx; simp [cv] at hx
 theorem soundList_aux (ρ : Env) : (es : List Expr) → EnvOkList ρ es →
     (∀ tys vs, absList es = some tys → evalList ρ es = some vs → Forall2 GammaT tys vs) ∧
     (∀ vs, evalList ρ es = some vs → Forall2 CvOk (cvList es) vs)
